@@ -100,42 +100,58 @@ func TestCrashChild(t *testing.T) {
 	p := cs.Prog
 	seq, idx := 0, 0
 	var pendingCallbacks sync.WaitGroup
-	for _, op := range p.Ops {
+	for i := 0; i < len(p.Ops); i++ {
+		op := p.Ops[i]
 		if op.Kind != "atxn" && op.Kind != "atxnwait" {
 			pendingCallbacks.Wait() // every other step runs with no write in flight
 		}
 		switch op.Kind {
 		case "atxn", "atxnwait":
-			idx++
-			myIdx := idx
-			ack.write("I %d", myIdx)
-			txn := db.NewTransaction(true)
-			for _, w := range op.Writes {
-				seq++
-				k := append([]byte{}, p.Keys[w.Key%len(p.Keys)]...)
-				var err error
-				if w.Del {
-					err = txn.Delete(k)
-				} else {
-					err = txn.Set(k, val(seq, w.VSize))
-				}
-				if err != nil {
-					ack.write("E set: %v", err)
-					return
-				}
+			// A run of asynchronous transactions: all of them are prepared first (NewTransaction waits
+			// until every earlier commit is applied, so preparing them one by one would serialise
+			// them), then committed with CommitWith back to back - requests queue up behind the write
+			// in progress and form multi-request write batches.
+			j := i
+			for p.Ops[j].Kind == "atxn" && j+1 < len(p.Ops) && (p.Ops[j+1].Kind == "atxn" || p.Ops[j+1].Kind == "atxnwait") {
+				j++
 			}
-			pendingCallbacks.Add(1)
-			txn.CommitWith(func(err error) {
-				if err != nil {
-					ack.write("E async commit: %v", err)
-				} else {
-					ack.write("A %d", myIdx)
+			var txns []*badger.Txn
+			for _, o := range p.Ops[i : j+1] {
+				txn := db.NewTransaction(true)
+				for _, w := range o.Writes {
+					seq++
+					k := append([]byte{}, p.Keys[w.Key%len(p.Keys)]...)
+					var err error
+					if w.Del {
+						err = txn.Delete(k)
+					} else {
+						err = txn.Set(k, val(seq, w.VSize))
+					}
+					if err != nil {
+						ack.write("E set: %v", err)
+						return
+					}
 				}
-				pendingCallbacks.Done()
-			})
-			if op.Kind == "atxnwait" {
+				txns = append(txns, txn)
+			}
+			for _, txn := range txns {
+				idx++
+				myIdx := idx
+				ack.write("I %d", myIdx)
+				pendingCallbacks.Add(1)
+				txn.CommitWith(func(err error) {
+					if err != nil {
+						ack.write("E async commit: %v", err)
+					} else {
+						ack.write("A %d", myIdx)
+					}
+					pendingCallbacks.Done()
+				})
+			}
+			if p.Ops[j].Kind == "atxnwait" {
 				pendingCallbacks.Wait()
 			}
+			i = j
 		case "txn":
 			idx++
 			ack.write("I %d", idx)
@@ -376,6 +392,7 @@ func verifyRecovered(p Prog, dir string, acked, issued int, label string) (int, 
 
 type crashStats struct {
 	points, runs, midOp, recoveries int
+	batchRot, batchRotRuns          int // write batches with a memtable rotation between two of their requests; loss runs aimed at them
 	sites                           map[string]int
 }
 
@@ -516,7 +533,7 @@ var wCrash = map[string]int{"txn": 10, "burst": 3, "asyncburst": 3, "flush": 4, 
 func TestC08_CrashRecovery(t *testing.T) {
 	all := core.Thorough()
 	core.Run(t, "C08", "crash",
-		"rapid-generated single-committer workloads (multi-key transactions with values around the threshold, forced memtable flushes, picker-driven compactions, value log GC, clean re-opens; encryption/compression/table sizes varied) run in a child process that kills itself (SIGKILL, page cache survives) when it reaches the n-th persistence/schedule hook (WAL store, vlog store and rotation, table create/write/sync, MANIFEST append and rewrite, flush and compaction phases, GC phases, Open and Close phases). quick: 6 sampled points per workload; thorough: every point of the dry run, every second one additionally with a crash during recovery. Oracle: Open succeeds; the visible state equals the model after some prefix of the issued commits that includes every acknowledged one (multi-key transactions make partial application match no prefix); level validation passes and *.sst files == tables; a further commit gets a version above everything stored, and a clean re-open agrees. Non-trivial = the kill landed while an operation was in flight (not between operations).",
+		"rapid-generated single-committer workloads (multi-key transactions with values around the threshold; asynchronous bursts - transactions prepared first, then committed with CommitWith back to back, so that requests queue up into multi-request write batches; forced memtable flushes, picker-driven compactions, value log GC, clean re-opens; encryption/compression/table sizes varied) run in a child process that kills itself (SIGKILL, page cache survives) when it reaches the n-th persistence/schedule hook (WAL store, vlog store and rotation, table create/write/sync, MANIFEST append and rewrite, flush and compaction phases, GC phases, Open and Close phases). quick: 6 sampled points per workload; thorough: every point of the dry run, every second one additionally with a crash during recovery. Oracle: Open succeeds; the visible state equals the model after some prefix of the issued commits that includes every acknowledged one (multi-key transactions make partial application match no prefix); level validation passes and *.sst files == tables; a further commit gets a version above everything stored, and a clean re-open agrees. Non-trivial = the kill landed while an operation was in flight (not between operations).",
 		func(rt *rapid.T) Prog {
 			return Gen(rt, GenCfg{MinOps: 4, MaxOps: 25, Weights: wCrash, AllowEnc: true, NPoints: 6})
 		},
